@@ -50,7 +50,13 @@ inline int bindLoopback(int type, uint16_t &port)
   int fd = ::socket(AF_INET, type | SOCK_CLOEXEC, 0);
   if (fd < 0) { perror("socket"); exit(3); }
   sockaddr_in a{}; a.sin_family = AF_INET; a.sin_addr.s_addr = htonl(INADDR_LOOPBACK); a.sin_port = 0;
-  if (::bind(fd, (sockaddr *)&a, sizeof a) != 0) { perror("bind"); exit(3); }
+  // bind(.., 0) can fail transiently with EADDRINUSE when the shared machine runs short of ephemeral ports
+  int tries = 0;
+  while (::bind(fd, (sockaddr *)&a, sizeof a) != 0)
+  {
+    if (++tries > 100) { perror("bind"); exit(3); }
+    vf::sleepMs(20);
+  }
   port = boundPort(fd);
   return fd;
 }
